@@ -337,20 +337,39 @@ class Observation:
     pass
 
 
-def build_real(g, budget, cfgs, main_seed, main_kind="rec", start=None, collators=False, pre_batch_size=None):
-    """constructs the real InterleavedSampler from a spec; returns (sampler, main_recorder, side_samplers, events, pos)"""
+def _typed(v, how):
+    """the same number / flag as another legal python or numpy type (what config files and numpy arithmetic hand to the constructor)"""
+    if v is None or how is None:
+        return v
+    import numpy as np
+    if isinstance(v, bool):
+        return {"np": np.bool_(v), "int": int(v)}.get(how, v)
+    if isinstance(v, int):
+        return {"np": np.int64(v), "np32": np.int32(v)}.get(how, v)
+    return v
+
+
+def build_real(g, budget, cfgs, main_seed, main_kind="rec", start=None, collators=False, pre_batch_size=None, reuse=None, types=None):
+    """constructs the real InterleavedSampler from a spec; returns (sampler, main_recorder, side_samplers, events, pos)
+    reuse = (sides, configs) of another build: the SAME side sampler and config objects are handed to this scheduler as well
+    types = None | dict(drop_last=how, intervals=how): argument types (see _typed)"""
     events = []
     pos = lambda: len(events)
+    types = types or {}
     if main_kind == "rec":
         main = RecMain(g["M"], g["N"], main_seed, pos)
     elif main_kind == "rec_noepoch":
         main = RecMainNoEpoch(g["M"], g["N"], main_seed, pos)
     else:
         main = make_real_main(main_kind, g, main_seed, pos)
-    sides = [make_side(c) for c in cfgs]
-    configs = [InterleavedSamplerConfig(sampler=s, every_n_epochs=c["every_n_epochs"], every_n_updates=c["every_n_updates"],
-                                        every_n_samples=c["every_n_samples"], batch_size=c["batch_size"]) for s, c in zip(sides, cfgs)]
-    kw = dict(main_sampler=main, batch_size=g["B"], configs=configs, drop_last=g["drop_last"], **budget)
+    if reuse is not None:
+        sides, configs = reuse
+    else:
+        sides = [make_side(c) for c in cfgs]
+        ti = types.get("intervals")
+        configs = [InterleavedSamplerConfig(sampler=s, every_n_epochs=_typed(c["every_n_epochs"], ti), every_n_updates=_typed(c["every_n_updates"], ti),
+                                            every_n_samples=_typed(c["every_n_samples"], ti), batch_size=c["batch_size"]) for s, c in zip(sides, cfgs)]
+    kw = dict(main_sampler=main, batch_size=g["B"], configs=configs, drop_last=_typed(g["drop_last"], types.get("drop_last")), **budget)
     if g["D"] is not None:
         kw["drop_last_batch_size"] = g["D"]
     if start:
@@ -365,6 +384,7 @@ def build_real(g, budget, cfgs, main_seed, main_kind="rec", start=None, collator
         for s_ in sides:
             s_.passes = 0
     sampler = InterleavedSampler(**kw)
+    main._kdv_configs = configs  # harness bookkeeping on the harness's own recorder object (reuse=)
     return sampler, main, sides, events
 
 
